@@ -40,14 +40,14 @@ ACT_ROW = "\t".join(['"Fe"', "101", "26", "Fe", "56", "Fe-56", "91.5", "Fe-57m",
 
 def probes():
     from rules.C07 import PROBE_BASE as NSF, PROBE_I as NSFI
-    from rules.C20 import CORDERO, LINES, CFML
+    from rules.C20 import CORDERO, CORDERO_PYYKKO, LINES, CFML
     return {
         "mass.isotope_mass": ISO, "mass.element_mass": ELM, "mass.isotope_abundance": ABU,
         "density.element_densities": DENS,
         "nsf.nsftable": NSF, "nsf.nsftableI": NSFI,
         "nsf_tables.ENERGY_DEPENDENT_TABLES": {("Lu", sp.Integer(176)): [(sp.Integer(k + 1), sp.Rational(k + 2, 2), -sp.Rational(k + 1, 4), sp.Integer(0))
                                                                          for k in range(3)]},
-        "covalent_radius.Cordero": CORDERO,
+        "covalent_radius.Cordero": CORDERO, "covalent_radius.CorderoPyykko?": CORDERO_PYYKKO,      # ('?': only if the package defines it)
         "crystal_structure.crystal_structures": [None, {"symmetry": "diatom", "d": sp.Rational("0.74")}, {"symmetry": "atom"},
                                                  {"symmetry": "BCC", "a": sp.Rational("3.49")}],
         "xsf.spectral_lines_data": LINES,
@@ -76,7 +76,12 @@ class LazyWorld:
     def __init__(self, src: SourceModel):
         self.src = src
         sc = dict(SYMCONST)
-        sc.update(probes())
+        for k_, v_ in probes().items():
+            if k_.endswith("?"):
+                k_ = k_[:-1]
+                if src.resolve(*k_.split(".", 1)) is None:
+                    continue
+            sc[k_] = v_
         self.I = I = Interp(src, symbolic_constants=sc)
         I.default_open = {}
         I.stubs["core.get_data_path"] = lambda I_, a, k: "/data"
